@@ -68,14 +68,14 @@ Proof.
   - discriminate.
   - (* J7 *) intros u p m0. rewrite HT. destruct (Nat.eqb_spec u t) as [->|Hne']; cbn [refs clk x'].
     + intros Hr' Hp Hn Hall. exfalso. destruct p as [|p]; [lia|].
-      apply (Hall m); [cbn; left; reflexivity|]. unfold hb. cbn [wt we m]. lia.
+      refine (unseen_own _ _ _ _ _ _ _ _ Ht _ Hall). unfold hb. cbn [wt we m clk x']. lia.
     + intros Hr' Hp Hn Hall. destruct p as [|p]; [lia|]. cbn [nth_error] in Hn.
       destruct p as [|p].
       * (* the old head *) destruct (msgs s) as [|m1 l1] eqn:Hms; [contradiction|]. cbn in Hn. injection Hn as <-.
         unfold hdm in Hv. rewrite Hms in Hv. cbn [hd] in Hv. rewrite Hv.
         pose proof (T2_le_total s u t Hne'). lia.
       * apply (J7 s I u (S p) m0 Hr' ltac:(lia) Hn).
-        intros m' Hin. apply Hall. cbn [firstn]. right. exact Hin.
+        refine (unseen_cons s t x' m _ _ _ u (S p) Ht _ Hcc Hne' Hall). reflexivity.
   - (* J8 *) intros u. rewrite HT. destruct (Nat.eqb_spec u t) as [->|Hne']; cbn [started x']; [discriminate|].
     apply (J8 s I u).
   - intros _ H0. exists t. rewrite HT, Nat.eqb_refl. cbn [mustfree x']. apply Nat.eqb_eq. lia.
